@@ -136,13 +136,20 @@ class Fragment(AbstractApplication):
             fragments.append(fctr)
 
         # only after all of them could be created
-        for fctr in fragments:
-            glib.idle_add(self._agent.send_bundle, fctr)
+        def send_fragments(_data):
+            ''' The fragments are sent in place of this bundle. '''
+            for (ix, fctr) in enumerate(fragments):
+                try:
+                    self._agent.send_bundle(fctr)
+                except Exception as err:
+                    if ix == 0:
+                        # nothing has left the node, a failure to send
+                        raise
+                    LOGGER.error('Failed to send fragment %d of %d: %s', ix + 1, len(fragments), err)
 
         # internal action, not delete
-        # the fragments are sent in place of this bundle
         ctr.route = None
-        ctr.sender = lambda data: None
+        ctr.sender = send_fragments
         return True
 
     def _reassemble(self, ctr):
